@@ -1,13 +1,9 @@
 //! C01 (encode -> parse round trip) and C03 (encoder output judged by the reference decoder).
 
-use ipp::parser::{AsyncIppParser, IppParser};
-use ipp::reader::{AsyncIppReader, IppReader};
 use serde_json::{json, Value};
-use std::io::Read;
 use vcore::canon::*;
 use vcore::gen;
 use vcore::model::*;
-use vcore::refcodec::*;
 use vcore::oracles::*;
 use vcore::runner::*;
 
@@ -51,12 +47,6 @@ fn label_shape(p: &Probe, m: &MMsg, c: &Canon) -> bool {
         p.label("trivial");
     }
     nt
-}
-
-fn read_all(mut r: impl Read) -> std::io::Result<Vec<u8>> {
-    let mut v = Vec::new();
-    r.read_to_end(&mut v)?;
-    Ok(v)
 }
 
 pub fn judge_c01(m: &MMsg, p: &Probe) -> Judge {
@@ -148,7 +138,7 @@ pub fn run_c03(ctx: &Ctx) {
     );
     ctx.assume("iteration order of the library's maps cannot be seeded from outside; it is sampled by repeated fresh builds");
     let builds = ctx.tier.pick(8, 16);
-    let (shards, per) = ctx.tier.pick((16, 1500), (16, 30000));
+    let (shards, per) = ctx.tier.pick((16, 4000), (16, 60000));
     run_prop(ctx, "encode", shards, per, || gen::m_msg(6), |m, p| judge_c03(m, p, builds), mmsg_json);
 }
 
